@@ -1,7 +1,7 @@
 SPEC = dict(
     id="C22",
-    level_text="Lean 4 theorems over an executable model of the CURRENT ClusterFSM (all 29 command types, every secondary index, snapshot, restore with its own validation and index rebuild), full strength for every history (any commands incl. invalid/duplicate/out-of-order at any log indexes, snapshot+restore anywhere): C22_deterministic, C22_batch_atomic (a batch is refused without effect or equals its ops applied one by one), C22_files_index (filesByDB agrees exactly with files, empty database included), C22_restore_manifest and C22_replay_manifest (restore(snapshot s) = s and replay from a snapshot after ANY prefix = replay from empty, for the manifest and node parts), C22_cascade_indexes_complete (every RBAC child is listed in its parent's traversal index). For histories with strictly increasing log indexes (what Raft delivers): C22_token_indexes (tokensByName and tokensByPrefix agree exactly with tokens, names unique, every stored token passes validateTokenEntry) and C22_restore_tokens (snapshot+restore reproduces tokens, tokensByName, tokensByPrefix). C22_dispatch_tied / C22_apply_pure / C22_validators_tied re-prove by `decide` over facts regenerated from the current source that Apply dispatches as modelled, reaches no clock/random/OS call, pairs validators as modelled, validates a changed token name and indexes every database. C22_prefix_*_witness keep the two pre-fix defect classes as statements about explicitly named pre-fix functions. The model is diffed line by line (primaries AND indexes, after every command, after snapshot+restore at every prefix, and on replays from snapshots) against the real Apply/Snapshot/Persist/Restore; all property monitors (index agreement for all ten indexes, restore fidelity, replay divergence, batch atomicity, peer determinism) are live and silent.",
-    level_note="VALIDATED ONLY (harness monitors on the real FSM, exhaustive short sequences + random histories; not proved): soundness direction of the five RBAC indexes (organizationsByName, teamsByOrg, rolesByTeam, measurementPermsByRole, tokenMemberships*) and restore/replay fidelity of the RBAC maps; the full-state replay theorem follows once those are proved",
+    level_text="Lean 4 theorems over an executable model of the CURRENT ClusterFSM (all 29 command types, every secondary index, snapshot, restore with its own validation and index rebuild), full strength for every history (any commands incl. invalid/duplicate/out-of-order at any log indexes, snapshot+restore anywhere): C22_deterministic, C22_batch_atomic (a batch is refused without effect or equals its ops applied one by one), C22_files_index (filesByDB agrees exactly with files, empty database included), C22_restore_manifest and C22_replay_manifest (restore(snapshot s) = s and replay from a snapshot after ANY prefix = replay from empty, for the manifest and node parts), C22_cascade_indexes_complete (every RBAC child is listed in its parent's traversal index). For histories with strictly increasing log indexes (what Raft delivers): C22_token_indexes (tokensByName and tokensByPrefix agree exactly with tokens, names unique, every stored token passes validateTokenEntry) and C22_restore_tokens (snapshot+restore reproduces tokens, tokensByName, tokensByPrefix). C22_membership_indexes_agree: tokenMembershipsByPair/ByToken/ByTeam agree exactly (both directions) with the membership records through add/remove and the team, organization and token cascades and across restore. C22_dispatch_tied / C22_apply_pure / C22_validators_tied re-prove by `decide` over facts regenerated from the current source that Apply dispatches as modelled, reaches no clock/random/OS call, pairs validators as modelled, validates a changed token name and indexes every database. C22_prefix_*_witness keep the two pre-fix defect classes as statements about explicitly named pre-fix functions. The model is diffed line by line (primaries AND indexes, after every command, after snapshot+restore at every prefix, and on replays from snapshots) against the real Apply/Snapshot/Persist/Restore; all property monitors (index agreement for all ten indexes, restore fidelity, replay divergence, batch atomicity, peer determinism) are live and silent.",
+    level_note="VALIDATED ONLY (harness monitors on the real FSM after every command and every restore — all ten indexes recomputed from the primaries, RBAC orphans, restore/replay divergence; exhaustive short words incl. a membership alphabet over 2 teams x 2 tokens, directed multi-team/multi-token cascades, random membership-heavy histories; not proved): soundness direction of organizationsByName, teamsByOrg, rolesByTeam, measurementPermsByRole and restore/replay fidelity of the RBAC maps",
     technique="Lean 4 invariant proofs (induction over histories with restores) over an executable FSM model; regenerated dispatch/purity/validator facts; differential correspondence on the real FSM incl. snapshot/persist/restore",
     factgen=True,
     hooks={"internal/cluster/raft": "go/hooks/raft"},
